@@ -154,9 +154,10 @@ def h_recon(H):
         owner = z3.Function("owner", z3.IntSort(), z3.IntSort())
         pos = z3.Function("pos", z3.IntSort(), z3.IntSort())
         q = z3.Int(fresh_name("q"))
-        it.ctx.assume(z3.ForAll([q], z3.Implies(z3.And(q >= 0, q < napch), z3.Or(
+        partition = z3.ForAll([q], z3.Implies(z3.And(q >= 0, q < napch), z3.Or(
             z3.And(owner(q) == 0, pos(q) >= 0, pos(q) < chs[0][1] - 1, chs[0][0].uf(pos(q)) == q),
-            z3.And(owner(q) == 1, pos(q) >= 0, pos(q) < chs[1][1] - 1, chs[1][0].uf(pos(q)) == q)))))
+            z3.And(owner(q) == 1, pos(q) >= 0, pos(q) < chs[1][1] - 1, chs[1][0].uf(pos(q)) == q))))
+        it.ctx.assume(partition)
         out = fsmodel.GhostFile("recon")
         rec = SObj(neuropixel.NP2Reconstructor, shank_info=shank_info, nch=SV(nch), nsamples=SV(ns), samples_window=60000, save_file="OUT")
         fn = neuropixel.NP2Reconstructor._reconstruct
@@ -187,8 +188,12 @@ def h_recon(H):
             r, c = z3.Ints("r c")
             L = Yl(j) - Yf(j)
             it.ctx.oblige("recon.block_shape", z3.And(z3.BoolVal(blk.dtype == np.dtype("int16")), A.T(blk.shape[0]) == L, A.T(blk.shape[1]) == nch), "post")
-            it.ctx.oblige("recon.block_values", A.forall([r, c], lambda: z3.Implies(z3.And(r >= 0, r < L, c >= 0, c < nch), blk.read((r, c)) == orig.read((Yf(j) + r, c)))), "post",
-                          "every column of the original frame is restored from the shank that holds it")
+            # Skolemised by hand, with the partition hypothesis instantiated at the column (proof hint)
+            r, c = z3.Int(fresh_name("r0")), z3.Int(fresh_name("c0"))
+            it.ctx.assume(z3.And(r >= 0, r < L, c >= 0, c < nch))
+            it.ctx.instantiate(partition, c)
+            it.ctx.oblige("recon.block_values", blk.read((r, c)) == orig.read((Yf(j) + r, c)), "post",
+                          "every column of the original frame is restored from the shank that holds it (arbitrary row r0, column c0)")
         wg = env.vars["wg"]
         it.ctx.oblige("recon.windows_do_not_overlap", term(wg.overlap) == 0, "post", "windows of the reconstruction tile the file (overlap 0), so blocks are appended once each")
     S.explore(body)
